@@ -1,13 +1,15 @@
 //! C28 (bounded): run-time-checked contract on the REAL FileCache::incremental_update (guarded hook
 //! els::verif_file_cache::open_and_change): after any didChange notification the server's copy equals the client's.
 //! Enumerates every document of up to <max_doc> characters over {a, é, 𝒳, LF}, and every notification of one or two
-//! content changes whose ranges have line <= 2, character <= 3 (start <= end) and whose new text is "", "x" or LF.
+//! content changes whose ranges have line <= 2, character <= 3 (start <= end) and whose new text is "", "x", LF or a quotation mark
+//! (which leaves the document unlexable).
 //! The client side is the LSP reference editor below (UTF-16 columns; a column past the end of a line means its end).
 //! args: <max_doc>     output: one JSON line
 use std::panic;
 
 const ALPHA: [char; 4] = ['a', 'é', '𝒳', '\n'];
-const TEXTS: [&str; 3] = ["", "x", "\n"];
+// `"` makes the document unlexable (unterminated string): the copy must be kept all the same
+const TEXTS: [&str; 4] = ["", "x", "\n", "\""];
 
 fn offset(doc: &str, line: u32, character: u32) -> usize {
     let mut start = 0usize;
